@@ -50,6 +50,42 @@ def replay(path):
     return 0
 
 
+def witness(path):
+    """replay of a proved path's witness input: every obligation must hold on the real code"""
+    from symx import boot, core
+
+    blob = json.load(open(path))
+    cex = blob["cex"]
+    E = core.ConcreteEngine(cex)
+    core.set_engine(E)
+    E.tags.update(dict(module=blob["module"], fn=blob["fn"], shape=blob["shape"]))
+    mod = importlib.import_module("harness." + blob["module"])
+    try:
+        getattr(mod, blob["fn"])(E, blob["shape"])
+    except core.Abort:
+        return "skipped", "bound reached"
+    except core.HarnessError as ex:
+        return "skipped", f"harness-error {ex}"
+    except Exception as ex:
+        return "mismatch", f"exception {type(ex).__name__}: {str(ex)[:150]} @ {core._site(ex)}"
+    if E.assumption_broken or E.missing:
+        return "skipped", f"rounded model leaves the harness assumptions / path (missing={E.missing[:2]})"
+    if E.failed:
+        return "mismatch", f"obligations proved symbolically fail on the real code: {[f['obligation'] for f in E.failed][:4]}"
+    return "ok", f"{len(E.checked)} obligations hold on the real code"
+
+
 if __name__ == "__main__":
     sys.path.insert(0, VERIF)
+    if sys.argv[1] == "--batch":
+        from symx import boot
+
+        boot.boot("concrete")
+        for f in sys.argv[2:]:
+            try:
+                st, detail = witness(f)
+            except BaseException as ex:  # noqa
+                st, detail = "skipped", f"{type(ex).__name__}: {ex}"
+            print(f"WITNESS {st} {f} :: {detail}", flush=True)
+        sys.exit(0)
     sys.exit(replay(sys.argv[1]))
